@@ -6,7 +6,10 @@ CONSTANTS
   Realms = {"r1", "r2"}
   AlgLists <- MCAlgLists
   DevK1 = FALSE
+  SimDepth = 0
+  Curated = FALSE
   DevK2 = FALSE
+VIEW ltview
 INVARIANT C08Holds
 INVARIANT ViewsAgree
 INVARIANT StateShape
